@@ -1,6 +1,7 @@
 package main
 
 import (
+	"go/constant"
 	"go/token"
 	"go/types"
 	"sort"
@@ -576,8 +577,22 @@ func (p *prov) call(x *ssa.Call, d int) []string {
 		nres := callee.Signature.Results().Len()
 		per := make([][]string, nres)
 		skipFailed := nres >= 2 && isErrorType(callee.Signature.Results().At(nres-1).Type()) && errGuardedUses(x)
+		// the same with a boolean ok as the last result
+		lastIsBool := false
+		if nres >= 2 {
+			if bt, isB := callee.Signature.Results().At(nres - 1).Type().Underlying().(*types.Basic); isB && bt.Kind() == types.Bool {
+				lastIsBool = true
+			}
+		}
+		skipNotOk := lastIsBool && errGuardedUses(x)
 		for _, ret := range returnsOf(callee) {
 			rr := retResults(ret)
+			if skipNotOk && len(rr) == nres {
+				if k, isK := rr[nres-1].(*ssa.Const); isK && k.Value != nil && k.Value.Kind() == constant.Bool && !constant.BoolVal(k.Value) {
+					per[nres-1] = append(per[nres-1], p.origins(rr[nres-1], d+1)...)
+					continue
+				}
+			}
 			if skipFailed && len(rr) == nres && definitelyNonNilErr(rr[nres-1], ret.Block()) {
 				// the caller uses the other results only where this call's error is nil: what a failing
 				// return hands back besides the error is never looked at
@@ -738,6 +753,14 @@ func errGuardedUses(call ssa.Value) bool {
 	}
 	nilHere := func(b *ssa.BasicBlock) bool {
 		for _, g := range guardsOf(b) {
+			// a boolean ok: known true here
+			cond, truth := g.Cond, g.Truth
+			if u, isNot := cond.(*ssa.UnOp); isNot && u.Op == token.NOT {
+				cond, truth = u.X, !truth
+			}
+			if cond == ssa.Value(errExt) && truth {
+				return true
+			}
 			bin, ok := g.Cond.(*ssa.BinOp)
 			if !ok || bin.X != ssa.Value(errExt) {
 				continue
@@ -800,11 +823,28 @@ func errGuardedUses(call ssa.Value) bool {
 
 // definitelyNonNilErr: the error operand of a return is a freshly made error or is known non-nil where it is returned.
 func definitelyNonNilErr(v ssa.Value, at *ssa.BasicBlock) bool {
+	return definitelyNonNilErrD(v, at, 0)
+}
+
+func definitelyNonNilErrD(v ssa.Value, at *ssa.BasicBlock, depth int) bool {
 	if call, ok := v.(*ssa.Call); ok {
 		if f := call.Call.StaticCallee(); f != nil && f.Pkg != nil {
 			switch f.Pkg.Pkg.Path() + "." + f.Name() {
 			case "fmt.Errorf", "errors.New":
 				return true
+			}
+			// an error-making helper of the module: every exit hands back a definitely non-nil error
+			if f.Blocks != nil && depth < 3 && f.Signature.Results().Len() == 1 && isErrorType(f.Signature.Results().At(0).Type()) {
+				all := true
+				rets := returnsOf(f)
+				for _, ret := range rets {
+					if rr := retResults(ret); len(rr) != 1 || !definitelyNonNilErrD(rr[0], ret.Block(), depth+1) {
+						all = false
+					}
+				}
+				if all && len(rets) > 0 {
+					return true
+				}
 			}
 		}
 	}
